@@ -6,7 +6,7 @@ import signal
 
 import gen
 from c02 import info_for
-from common import Case, nat, opt
+from common import Case, b as b_, nat, opt
 from prosemirror.model import Fragment, Node, Slice
 
 ID = "C20"
@@ -23,12 +23,19 @@ def _alarm(_s, _f):
     raise Hang()
 
 
+_HANGS = [0]
+
+
 def with_alarm(f, secs=2):
+    # after a dozen hangs the verdict is clear: give the remaining calls a tenth of the time so the run still ends soon
+    if _HANGS[0] > 12:
+        secs = 0.2
     old = signal.signal(signal.SIGALRM, _alarm)
     signal.setitimer(signal.ITIMER_REAL, secs)
     try:
         return ("ok", f())
     except Hang:
+        _HANGS[0] += 1
         return ("err", "Hang")
     except Exception as e:  # noqa: BLE001
         return ("err", f"{type(e).__name__}: {e}"[:120])
@@ -49,6 +56,16 @@ def diff_case(fam, a: Fragment, b: Fragment, kind):
             "start": list(rs), "end": list(re_), "kind": kind}
     return Case(coq=coq, desc=desc, schema=info.schema_term(), kind=kind,
                 nontrivial=a.size > 0 and b.size > 0)
+
+
+def eq_case(fam, a: Fragment, b: Fragment, kind):
+    """Fragment.eq (hence Node.eq, TextNode.eq) as observed, against the model's equality"""
+    info = info_for(fam)
+    r = with_alarm(lambda: bool(a.eq(b)))
+    obs = r[1] if r[0] == "ok" else None
+    coq = f"CEq @S@ {info.frag(a)} {info.frag(b)} {b_(bool(obs))}" if obs is not None else f"CEq @S@ {info.frag(a)} {info.frag(a)} false"
+    return Case(coq=coq, desc={"family": fam, "a": [c.to_json() for c in a.content], "b": [c.to_json() for c in b.content],
+                               "eq": list(r), "kind": kind}, schema=info.schema_term(), kind="eq/" + kind, nontrivial=True)
 
 
 def edited(rng, g, doc, docs):
@@ -132,21 +149,31 @@ def generate(rng: random.Random, tier: str):
         for doc in docs:
             after = edited(rng, g, doc, docs)
             yield diff_case(fam, doc.content, after.content, "edit-pair(shared nodes)")
+            yield eq_case(fam, doc.content, after.content, "edit-pair(shared nodes)")
             yield diff_case(fam, after.content, doc.content, "edit-pair(shared nodes)")
+            yield eq_case(fam, after.content, doc.content, "edit-pair(shared nodes)")
             copy_ = Node.from_json(sc, doc.to_json())
             yield diff_case(fam, doc.content, copy_.content, "independent-equal-copy")
+            yield eq_case(fam, doc.content, copy_.content, "independent-equal-copy")
             yield diff_case(fam, doc.content, doc.content, "identical-object")
+            yield eq_case(fam, doc.content, doc.content, "identical-object")
             alt = retext(rng, doc, sc)
             yield diff_case(fam, doc.content, alt.content, "text-altered-copy(astral)")
+            yield eq_case(fam, doc.content, alt.content, "text-altered-copy(astral)")
             alt2 = remarked_retext(rng, doc, sc)
             yield diff_case(fam, doc.content, alt2.content, "text-remarked-and-altered")
+            yield eq_case(fam, doc.content, alt2.content, "text-remarked-and-altered")
             yield diff_case(fam, alt2.content, doc.content, "text-remarked-and-altered")
+            yield eq_case(fam, alt2.content, doc.content, "text-remarked-and-altered")
             other = rng.choice(docs)
             yield diff_case(fam, doc.content, other.content, "unrelated")
+            yield eq_case(fam, doc.content, other.content, "unrelated")
             # prefixes / suffixes by child count
             k = rng.randint(0, doc.content.child_count)
             yield diff_case(fam, doc.content, doc.content.cut_by_index(0, k), "child-prefix")
+            yield eq_case(fam, doc.content, doc.content.cut_by_index(0, k), "child-prefix")
             yield diff_case(fam, doc.content, doc.content.cut_by_index(k, doc.content.child_count), "child-suffix")
+            yield eq_case(fam, doc.content, doc.content.cut_by_index(k, doc.content.child_count), "child-suffix")
 
 
 def _shared_from_json(sc, items, memo):
